@@ -749,7 +749,13 @@ class StrategyBase(Node):
         # won't change
         # (the flows row holds the net flows as of the previous update of this date:
         # a flow offset by a non-flow adjustment leaves the value unchanged but not the index)
-        if newpt or not is_zero(self._value - val) or not is_zero(self._notl_value - notl_val) or not is_zero(self._net_flows - self._all_flows.values[inow]):
+        if (
+            newpt
+            or not is_zero(self._value - val)
+            or not is_zero(self._notl_value - notl_val)
+            or not is_zero(self._net_flows - self._all_flows.values[inow])
+            or (self._bidoffer_set and not is_zero(self._bidoffer_paid - bidoffer_paid))
+        ):
             self._value = val
             _w(self._values)[inow] = val
 
